@@ -100,8 +100,17 @@ func init() {
 		h := st.heapGet(cls, heapSort(2, cp.Sort))
 		nh := Fresh("H:"+cls, h.Sort)
 		sortSeq++
-		pi := func(t *Term) *Term { return UF(fmt.Sprintf("perm!%d", sortSeq), SInt, t) }
-		ip := func(t *Term) *Term { return UF(fmt.Sprintf("perminv!%d", sortSeq), SInt, t) }
+		// the permutation and its inverse as arrays (visible to contracts as the ghost maps $sortFrom / $sortTo)
+		piA := Fresh("perm", SArr(SInt, SInt))
+		ipA := Fresh("perminv", SArr(SInt, SInt))
+		pi := func(t *Term) *Term { return Select(piA, t) }
+		ip := func(t *Term) *Term { return Select(ipA, t) }
+		if ex.Specs.GhostVars["sortFrom"] == "imap" && ex.Specs.GhostVars["sortTo"] == "imap" {
+			hf := st.heapGet("G:$sortFrom[]", SArr(SInt, SArr(SInt, SInt)))
+			st.Heap["G:$sortFrom[]"] = Store(hf, Zero, piA)
+			ht := st.heapGet("G:$sortTo[]", SArr(SInt, SArr(SInt, SInt)))
+			st.Heap["G:$sortTo[]"] = Store(ht, Zero, ipA)
+		}
 		k := Fresh("k", SInt)
 		ar := Fresh("a", SInt)
 		in := func(t *Term) *Term { return And(Le(Zero, t), Lt(t, sv.Len)) }
